@@ -535,6 +535,10 @@ def cases(ctx):
         k += 1
         if ctx.mine(k):
             yield {"kind": "deep-queue", "n": n, "drain": drain, "socket_id": k % 3}
+    for op in ("recv", "close", "send"):
+        k += 1
+        if ctx.mine(k):
+            yield {"kind": "finalizer", "op": op, "runs": 40 if ctx.quick else 150}
     for n in names:
         k += 1
         if ctx.mine(k):
@@ -604,10 +608,44 @@ def _deep_queue(ctx, case):
     ctx.case(case, True)
 
 
+def _finalizer(ctx, case):
+    """Own process (vf/harness/gc_probe.py): a socket that is cyclic garbage is finalized - and so disconnected - by the garbage
+    collector at the k-th allocation after it was dropped, k = 0..runs-1, i.e. also at statements inside the hub's critical
+    sections, while an unrelated connected socket does a non-blocking receive on its empty channel / is closed / sends."""
+    import json
+    import os
+    import subprocess
+    import sys
+    probe = os.path.join(os.path.dirname(os.path.dirname(os.path.abspath(__file__))), "harness", "gc_probe.py")
+    try:
+        p = subprocess.run([sys.executable, probe, case["op"], str(case["runs"])], capture_output=True, text=True, timeout=300)
+        rep = json.loads(p.stdout.strip().splitlines()[-1])
+    except Exception as e:      # the probe itself failed: nothing observed
+        ctx.count("finalizer_probe_failed")
+        ctx.notes["finalizer_probe_error"] = f"{type(e).__name__}: {str(e)[:200]}"
+        return ctx.case(case, False)
+    ctx.count("finalizer_collection_points", rep["completed"])
+    if rep["hung_at"] is not None:
+        inside = any("__del__" in f for f in rep["stack"]) and any(":disconnect:" in f for f in rep["stack"])
+        if inside:
+            ctx.fail(case, f"a garbage-collected socket was finalized {rep['hung_at']} allocation(s) into a {case['op']} of another socket: "
+                           f"the {'non-blocking receive on an empty channel' if case['op'] == 'recv' else case['op']} never returned "
+                           f"(the thread waits for the hub lock it already holds: {' <- '.join(rep['stack'][:5])})")
+        else:
+            ctx.count("inconclusive_finalizer_probe_timeouts")
+    elif rep.get("unexpected"):
+        ctx.fail(case, f"non-blocking receive on an empty channel returned a message: {rep['unexpected'][:2]}")
+    elif case["op"] == "send" and not rep.get("delivered", True):
+        ctx.fail(case, "messages sent while sockets were being finalized were not all delivered exactly once, in order")
+    return ctx.case(case, rep["completed"] > 0)
+
+
 def run_case(ctx, case):
     from vf.common import h64
     if case["kind"] == "deep-queue":
         return _deep_queue(ctx, case)
+    if case["kind"] == "finalizer":
+        return _finalizer(ctx, case)
     script = scenarios()[case["scenario"]]
     if case["kind"] == "replay":
         picks = list(case["choices"])
